@@ -183,7 +183,17 @@ func push(recv geom.T, parts ...geom.T) error {
 	case *geom.MultiPolygon:
 		return r.Push(parts[0].(*geom.Polygon))
 	case *geom.GeometryCollection:
-		return r.Push(parts...)
+		// the argument list is the caller's slice (with room to spare): once Push has
+		// returned the caller refills it, which must not reach the collection
+		args := make([]geom.T, len(parts), len(parts)+3)
+		copy(args, parts)
+		err := r.Push(args...)
+		junk := geom.NewPointFlat(geom.XY, []float64{-999, -999})
+		args = args[:cap(args)]
+		for i := range args {
+			args[i] = junk
+		}
+		return err
 	}
 	return fmt.Errorf("bad receiver %T", recv)
 }
